@@ -8,7 +8,10 @@ import Blue.Model.KvsWrite
       · `[lock: wait until head; unlink; visible := seq]`
     * flush thread: `[lock: imm := mem; mem := new; mem_seq_no := seq_no++; link]` ·
       `[lock: wait until head; unlink]` · `[install version]` · `[lock: imm := none]`
-    * reader: `[lock: snapshot (mem, imm, version); ts]` · lookups in the snapshot, pruned at `ts`.
+    * reader: `[lock: mem, imm; clone the tree version (its own step, under the version mutex); ts]`
+      · lookups in the snapshot, pruned at `ts`.  The model lets the clone (`rTree`) happen at any
+      moment before `rSnap`, so that a store that takes its tree version outside the critical section
+      is a run of it too; `Snap.clean` records whether that made a difference.
 
     `completed = false` is the store as found: `ts` is the last *assigned* sequence number (D-6).
     `completed = true` is the repaired store: `ts` is the sequence number of the last writer that
@@ -40,11 +43,17 @@ structure Writer where
   batch : List (Nat × Option Nat)
 deriving DecidableEq, Repr
 
-/-- what a reader took under the lock -/
+/-- what a reader searches: `mem`, `imm` and the timestamp are taken in one critical section of the
+    store mutex (`rSnap`); the tree version is taken in a step of its own (`rTree`, the clone under
+    the tree's version mutex in `LsmTree::take_snapshot`), which the code makes inside that
+    critical section -/
 structure Snap where
   ts : Nat
-  /-- the tables it searches: mem, imm, the flushed ones of the version -/
+  /-- the tables it searches: mem, imm, the flushed ones of the version it holds -/
   tbls : List Nat
+  /-- ghost: no `imm := none` step of the flush thread fell between the reader's taking its tree
+      version and its taking mem / imm (always so when the version is taken under the store mutex) -/
+  clean : Bool
 deriving DecidableEq, Repr
 
 structure St where
@@ -64,11 +73,16 @@ structure St where
   /-- sequence numbers whose log append has returned -/
   logged : List Nat
   readers : List (Nat × Snap)
+  /-- the number of the installed tree version (`tree.install` events number them) -/
+  verId : Nat
+  /-- readers that hold a tree version and have not yet taken mem / imm: (reader, (flushed tables
+      of that version, ghost: no `fClear` since)) -/
+  trees : List (Nat × (List Nat × Bool))
 deriving DecidableEq, Repr
 
 /-- the store after `open`: `seq_no`, `mem_seq_no` as `verif_state` reports them -/
 def init (completed : Bool) (seqNo memId : Nat) : St :=
-  ⟨completed, seqNo, seqNo, memId, none, false, false, [], [], [], [], [], []⟩
+  ⟨completed, seqNo, seqNo, memId, none, false, false, [], [], [], [], [], [], 0, []⟩
 
 inductive Ev where
   | wBegin (seq tbl : Nat) (batch : List (Nat × Option Nat))
@@ -77,8 +91,13 @@ inductive Ev where
   | wFin (seq : Nat)
   | fRotate (newMem oldMem : Nat)
   | fHead (newMem : Nat)
-  | fInstall (oldMem : Nat)
+  /-- the flush's `_ingest` installs tree version `vid`, which holds the flushed table -/
+  | fInstall (oldMem vid : Nat)
   | fClear (oldMem : Nat)
+  /-- a compaction installs tree version `vid` (same tables, other files) -/
+  | tInstall (vid : Nat)
+  /-- reader `rid` clones the installed tree version, which must be number `vid` -/
+  | rTree (rid vid : Nat)
   | rSnap (rid ts mem : Nat) (imm : Bool)
 deriving DecidableEq, Repr
 
@@ -90,7 +109,7 @@ def findWriter (s : St) (seq : Nat) : Option Writer := s.writers.find? (fun w =>
 /-- the timestamp a reader takes now -/
 def readTs (s : St) : Nat := if s.completed then s.visible else s.seqNo
 
-/-- the tables a snapshot taken now searches -/
+/-- the tables a snapshot taken now, tree version included, searches -/
 def liveTables (s : St) : List Nat := s.memId :: (s.imm.toList ++ s.flushed)
 
 /-- one step; `none` = the event is not enabled in this state -/
@@ -132,18 +151,29 @@ def step (s : St) : Ev → Option St
     if s.queue.head? = some (Ticket.f newMem) ∧ s.memId = newMem ∧ s.imm.isSome = true ∧ s.sealed = false then
       some { s with queue := s.queue.tail, sealed := true }
     else none
-  | .fInstall oldMem =>
-    if s.imm = some oldMem ∧ s.sealed = true ∧ s.installed = false then
-      some { s with flushed := oldMem :: s.flushed, installed := true }
+  | .fInstall oldMem vid =>
+    if s.imm = some oldMem ∧ s.sealed = true ∧ s.installed = false ∧ s.verId < vid then
+      some { s with flushed := oldMem :: s.flushed, installed := true, verId := vid }
     else none
   | .fClear oldMem =>
     if s.imm = some oldMem ∧ s.installed = true then
-      some { s with imm := none, installed := false, sealed := false }
+      some { s with imm := none, installed := false, sealed := false,
+                    trees := s.trees.map (fun p => (p.1, (p.2.1, false))) }
+    else none
+  | .tInstall vid =>
+    if s.verId < vid then some { s with verId := vid } else none
+  | .rTree rid vid =>
+    if vid = s.verId then
+      some { s with trees := (rid, (s.flushed, true)) :: s.trees.filter (fun p => p.1 ≠ rid) }
     else none
   | .rSnap rid ts mem imm =>
-    if ts = readTs s ∧ mem = s.memId ∧ imm = s.imm.isSome then
-      some { s with readers := (rid, ⟨ts, liveTables s⟩) :: s.readers }
-    else none
+    match s.trees.find? (fun p => p.1 = rid) with
+    | some p =>
+      if ts = readTs s ∧ mem = s.memId ∧ imm = s.imm.isSome then
+        some { s with readers := (rid, ⟨ts, s.memId :: (s.imm.toList ++ p.2.1), p.2.2⟩) :: s.readers,
+                      trees := s.trees.filter (fun p => p.1 ≠ rid) }
+      else none
+    | none => none
 
 def run (s : St) : List Ev → Option St
   | [] => some s
